@@ -687,3 +687,11 @@ PARTS = [OpsPart, WrapPart, DegenPart]
 #     COQ_PROPS = [COQ_PROPS, 'Props/C07img.v']; THEOREMS += imglib.THEOREMS['Props/C07img.v']
 #     PARTS += [imglib.for_property(p, 'C07') for p in (imglib.ImgMergePart, imglib.ImgSplitPart, imglib.ImgRoundTripPart)]
 # (corpus/C07/imgmerge_*.json are cases of those parts; this plugin's own parts ignore them).
+
+# image level (integrator): extension geometry == image geometry after NiftiWrapper.from_sequence / split
+from props import imglib
+COQ_PROPS = [COQ_PROPS, 'Props/C07img.v']
+THEOREMS = list(THEOREMS) + imglib.THEOREMS['Props/C07img.v']
+PARTS = list(PARTS) + [imglib.for_property(p, 'C07') for p in (imglib.ImgMergePart, imglib.ImgSplitPart, imglib.ImgRoundTripPart)]
+TRUSTED_BASE = list(TRUSTED_BASE) + imglib.TRUSTED_BASE
+ASSUMPTIONS = list(ASSUMPTIONS) + imglib.ASSUMPTIONS
